@@ -333,6 +333,8 @@ where
 impl<K, V> TreeBin<K, V> {
     /// Acquires write lock for tree restucturing.
     fn lock_root(&self, guard: &Guard<'_>, collector: &Collector) {
+        #[cfg(feature = "verif")]
+        crate::verif::hit(crate::verif::RAW_ATOMIC, crate::verif::addr(&self.lock_state), 0);
         if self
             .lock_state
             .compare_exchange(0, WRITER, Ordering::SeqCst, Ordering::Relaxed)
@@ -341,10 +343,14 @@ impl<K, V> TreeBin<K, V> {
             // the current lock state is non-zero, which means the lock is contended
             self.contended_lock(guard, collector);
         }
+        #[cfg(feature = "verif")]
+        crate::verif::hit(crate::verif::WIN_TREE_ROOT_LOCKED, crate::verif::addr(self), 0);
     }
 
     /// Releases write lock for tree restructuring.
     fn unlock_root(&self) {
+        #[cfg(feature = "verif")]
+        crate::verif::hit(crate::verif::RAW_ATOMIC, crate::verif::addr(&self.lock_state), 0);
         self.lock_state.store(0, Ordering::Release);
     }
 
@@ -353,9 +359,13 @@ impl<K, V> TreeBin<K, V> {
         let mut waiting = false;
         let mut state: i64;
         loop {
+            #[cfg(feature = "verif")]
+            crate::verif::hit(crate::verif::RAW_ATOMIC, crate::verif::addr(&self.lock_state), 0);
             state = self.lock_state.load(Ordering::Acquire);
             if state & !WAITER == 0 {
                 // there are no writing or reading threads
+                #[cfg(feature = "verif")]
+                crate::verif::hit(crate::verif::RAW_ATOMIC, crate::verif::addr(&self.lock_state), 0);
                 if self
                     .lock_state
                     .compare_exchange(state, WRITER, Ordering::SeqCst, Ordering::Relaxed)
@@ -390,19 +400,29 @@ impl<K, V> TreeBin<K, V> {
             } else if state & WAITER == 0 {
                 // we have not indicated yet that we are waiting, so we need to
                 // do that now
+                #[cfg(feature = "verif")]
+                crate::verif::hit(crate::verif::RAW_ATOMIC, crate::verif::addr(&self.lock_state), 0);
                 if self
                     .lock_state
                     .compare_exchange(state, state | WAITER, Ordering::SeqCst, Ordering::Relaxed)
                     .is_ok()
                 {
                     waiting = true;
+                    #[cfg(feature = "verif")]
+                    crate::verif::hit(crate::verif::EV_WAITER_SET, crate::verif::addr(self), 0);
                     let current_thread = Shared::boxed(current(), collector);
                     let waiter = self.waiter.swap(current_thread, Ordering::SeqCst, guard);
                     assert!(waiter.is_null());
                 }
             } else if waiting {
+                #[cfg(feature = "verif")]
+                crate::verif::hit(crate::verif::PRE_PARK, crate::verif::addr(self), 0);
                 park();
+                #[cfg(feature = "verif")]
+                crate::verif::hit(crate::verif::POST_PARK, crate::verif::addr(self), 0);
             }
+            #[cfg(feature = "verif")]
+            crate::verif::hit(crate::verif::SPIN, crate::verif::addr(self), 0);
             std::hint::spin_loop();
         }
     }
@@ -439,6 +459,12 @@ impl<K, V> TreeBin<K, V> {
         let bin_deref = unsafe { bin.deref() }.as_tree_bin().unwrap();
         let mut element = bin_deref.first.load(Ordering::SeqCst, guard);
         while !element.is_null() {
+            #[cfg(feature = "verif")]
+            crate::verif::hit(
+                crate::verif::RAW_ATOMIC,
+                crate::verif::addr(&bin_deref.lock_state),
+                0,
+            );
             let s = bin_deref.lock_state.load(Ordering::SeqCst);
             if s & (WAITER | WRITER) != 0 {
                 // another thread is modifying or wants to modify the tree
@@ -464,12 +490,24 @@ impl<K, V> TreeBin<K, V> {
             {
                 // the current lock state indicates no waiter or writer and we
                 // acquired a read lock
+                #[cfg(feature = "verif")]
+                crate::verif::hit(
+                    crate::verif::WIN_TREE_READ_LOCKED,
+                    crate::verif::addr(bin_deref),
+                    0,
+                );
                 let root = bin_deref.root.load(Ordering::SeqCst, guard);
                 let p = if root.is_null() {
                     Shared::null()
                 } else {
                     TreeNode::find_tree_node(root, hash, key, guard)
                 };
+                #[cfg(feature = "verif")]
+                crate::verif::hit(
+                    crate::verif::RAW_ATOMIC,
+                    crate::verif::addr(&bin_deref.lock_state),
+                    0,
+                );
                 if bin_deref.lock_state.fetch_add(-READER, Ordering::SeqCst) == (READER | WAITER) {
                     // we were the last reader holding up a waiting writer, so
                     // we unpark the waiting writer by granting it a token
@@ -481,6 +519,12 @@ impl<K, V> TreeBin<K, V> {
                         // currently _waiting_ on said lock, the handle will not
                         // yet be dropped.
                         unsafe { waiter.deref() }.unpark();
+                        #[cfg(feature = "verif")]
+                        crate::verif::hit(
+                            crate::verif::AFTER_UNPARK,
+                            crate::verif::addr::<std::thread::Thread>(unsafe { waiter.deref() }),
+                            crate::verif::addr(bin_deref),
+                        );
                     }
                 }
                 return p;
@@ -532,6 +576,8 @@ impl<K, V> TreeBin<K, V> {
         if prev.is_null() {
             // the node to delete is the first node
             self.first.store(next, Ordering::SeqCst);
+            #[cfg(feature = "verif")]
+            crate::verif::hit(crate::verif::WIN_TREE_FIRST_STORED, crate::verif::addr(self), 0);
         } else {
             TreeNode::get_tree_node(prev)
                 .node
@@ -872,6 +918,8 @@ where
                     collector,
                 );
                 self.first.store(x, Ordering::SeqCst);
+                #[cfg(feature = "verif")]
+                crate::verif::hit(crate::verif::WIN_TREE_FIRST_STORED, crate::verif::addr(self), 1);
                 if !first.is_null() {
                     unsafe { TreeNode::get_tree_node(first) }
                         .prev
